@@ -803,13 +803,15 @@ MANIFEST_C07 = dict(
                 'oracle only), uint8/uint32 overflows (see ASSUMPTIONS).'),
     design_ref='DESIGN.md section 5 C07')
 MANIFEST_C08 = dict(
-    level_text=('REQ: PROVED for every reachable state and query predicate: every step of update/merge other than a compaction changes the estimator exactly like the true rank; a compaction '
-                'with even state_ is a fair coin flip whose two outcomes add up to twice the estimate before; a compaction with odd state_ draws no coin; the number of coins an update or a '
-                'merge draws and all sizes/state_/section parameters it leaves behind are independent of the coin outcomes and of the item values (lock-step simulation). NOT proved: exact '
-                'unbiasedness over whole histories (needs "a level\'s coins are independent of that level\'s contents" for the reused negated coin); it is checked by exhaustive enumeration of '
-                'all coin outcomes of short histories on the implementation. The original constructor (coin_ = false) is refuted by a theorem: a reachable history whose exhaustive coin sum is 32 '
-                'instead of 34 (repaired by fixes/08_req_unset_coin.patch, after which the same history sums to 2^5 * 17).'),
-    level_note='The clause "within the published error at least as often as claimed" is statistical and not claimed.',
+    level_text=('REQ: PROVED (C08_req_unbiased, coq/ReqFull.v): for every history that is a merge tree of updates (any k, both modes), every query point and both '
+                'criteria, the sum over ALL outcomes of the coins of get_rank * n = 2^m * true rank, and every outcome draws exactly m coins - including the reused (negated) '
+                'coin of odd compactions (per-level signed-error ghost + the bijection "negate every coin of one level"). Also proved: fresh-coin compaction pair identity, '
+                'odd compactions draw no coin, lock-step independence of sizes/states/section parameters from coin outcomes and item values, the exact band behind '
+                'is_exact_rank (strict, for the smallest k merged in). The published bounds get_rank_lower/upper_bound / get_RSE are modelled bit-exactly in binary64 and '
+                'compared with the code on every run. The original constructor (coin_ = false) is refuted by a theorem (exhaustive coin sum 32 instead of 34).'),
+    level_note=('Not covered by the theorem: DAG histories (a sketch merged with a copy of itself or of a descendant) - enumeration on the implementation only. '
+                'The clause "within the published error at least as often as claimed" is statistical and not claimed; two genuine edge defects of the declared-exact band '
+                'are known findings.'),
     design_ref='DESIGN.md section 5 C08, Appendix B')
 
 # ---------------------------------------------------------------------------------------------------------------------
